@@ -13,6 +13,16 @@
 (*             real Open: as is (process death) or with one file cut to a  *)
 (*             given length (power failure); what the reopened database    *)
 (*             holds; optionally a continued run (Put, Close, Open, dump)  *)
+(*   fault     (replay of model-generated behaviours, profile gen) the      *)
+(*             running engine was abandoned at this instant and the run    *)
+(*             continues on the directory image: proc (process death) or   *)
+(*             power failure with cuts = [f, n]: file f keeps n bytes      *)
+(*   recovered what the Open of that image exposed; the acknowledged       *)
+(*             history is rebased to the prefix (or the call in flight)    *)
+(*             that explains it, so that a later fault is judged against   *)
+(*             what can still be lost                                      *)
+(*   view      Get of every key + ListKeys of the live database at a       *)
+(*             quiescent instant                                           *)
 (* written/synced are advanced from io events only - the interception is   *)
 (* the only source of truth for "flushed".  Judged here:                   *)
 (*   C03/C04/C07  RecOK: the recovered mapping is the mapping after some   *)
@@ -38,8 +48,9 @@ VARIABLES l, n, cfg,
           maps,             \* maps[p+1] = mapping after p acknowledged mutations
           ends,             \* ends[p]   = write extents [f, start, end] of the p-th acknowledged mutation
           plain,            \* extents of acknowledged Put/Delete records not yet known flushed (C13 Threshold)
-          st                \* "closed" | "open"
-vars == <<l, n, cfg, written, synced, wends, pend, batch, maps, ends, plain, st>>
+          st,               \* "closed" | "open"
+          flt               \* the fault whose recovery has not been observed yet (profile gen)
+vars == <<l, n, cfg, written, synced, wends, pend, batch, maps, ends, plain, st, flt>>
 
 E == Trace[l]
 Is(ev) == l <= Len(Trace) /\ Trace[l].ev = ev
@@ -54,13 +65,15 @@ Use(id) == Print(<<"KNOWN-FINDING-USED", id, l>>, TRUE)
 Get(f, x, d) == IF x \in DOMAIN f THEN f[x] ELSE d
 Upd(f, x, v) == [y \in DOMAIN f \cup {x} |-> IF y = x THEN v ELSE f[y]]
 
+NoFlt == [on |-> FALSE]
 NoCfg == [sync |-> "no", bps |-> 0, io |-> "std", limit |-> 0]
 Init == /\ l = 1 /\ n = 0 /\ cfg = NoCfg /\ written = <<>> /\ synced = <<>> /\ wends = <<>>
         /\ pend = None /\ batch = NoBatch /\ maps = << <<>> >> /\ ends = <<>> /\ plain = {} /\ st = "closed"
+        /\ flt = NoFlt
 
 TReset == /\ Is("reset") /\ l' = l + 1 /\ n' = E.n /\ cfg' = NoCfg
           /\ written' = <<>> /\ synced' = <<>> /\ wends' = <<>> /\ pend' = None /\ batch' = NoBatch
-          /\ maps' = << [k \in 1..E.n |-> Nil] >> /\ ends' = <<>> /\ plain' = {} /\ st' = "closed"
+          /\ maps' = << [k \in 1..E.n |-> Nil] >> /\ ends' = <<>> /\ plain' = {} /\ st' = "closed" /\ flt' = NoFlt
 
 (* ---- I/O events --------------------------------------------------------- *)
 IsData(e) == e.d = 0 /\ e.x = "data"
@@ -94,14 +107,14 @@ TIo ==
                  /\ UNCHANGED <<written, wends, pend>>
             [] OTHER -> UNCHANGED <<written, synced, wends, pend>>
   /\ plain' = {x \in plain : x.end > Get(synced', x.f, 0)}
-  /\ UNCHANGED <<n, cfg, batch, maps, ends, st>>
+  /\ UNCHANGED <<n, cfg, batch, maps, ends, st, flt>>
 
 (* ---- calls ---------------------------------------------------------------- *)
 TCall ==
   /\ Is("call") /\ pend = None /\ l' = l + 1
   /\ pend' = [op |-> E.op, k |-> E.k, v |-> E.v, a |-> E.a, ends |-> {}]
   /\ cfg' = IF E.op = "Open" THEN E.cfg ELSE cfg
-  /\ UNCHANGED <<n, written, synced, wends, batch, maps, ends, plain, st>>
+  /\ UNCHANGED <<n, written, synced, wends, batch, maps, ends, plain, st, flt>>
 
 P == Len(ends)                       \* acknowledged mutations so far
 Cur == maps[Len(maps)]
@@ -149,7 +162,7 @@ TRet ==
                       [] OTHER -> batch
         /\ st' = IF pend.op = "Open" /\ ok THEN "open" ELSE IF pend.op = "Close" /\ ok THEN "closed" ELSE st
   /\ pend' = None
-  /\ UNCHANGED <<n, cfg, written, synced, wends>>
+  /\ UNCHANGED <<n, cfg, written, synced, wends, flt>>
 
 (* ---- crash observations ----------------------------------------------------- *)
 Durable(j) == Flushed(ends[j])
@@ -185,13 +198,62 @@ TCrashRec ==
      ELSE IF DevTorn(e) THEN Use("F24")
      ELSE IF DevMMap(e) THEN Use("F26")
      ELSE Fail("recok")
-  /\ UNCHANGED <<n, cfg, written, synced, wends, pend, batch, maps, ends, plain, st>>
+  /\ UNCHANGED <<n, cfg, written, synced, wends, pend, batch, maps, ends, plain, st, flt>>
 
 \* dumps of the live database are not judged here (EngineTrace does that); they are skipped
 TSkip == /\ Is("dump") /\ l' = l + 1
-         /\ UNCHANGED <<n, cfg, written, synced, wends, pend, batch, maps, ends, plain, st>>
+         /\ UNCHANGED <<n, cfg, written, synced, wends, pend, batch, maps, ends, plain, st, flt>>
 
-Next == TReset \/ TIo \/ TCall \/ TRet \/ TCrashRec \/ TSkip
+(* ---- replay of model-generated behaviours: the run continues after a fault ----------------- *)
+MinI(a, b) == IF a < b THEN a ELSE b
+MaxS(S) == CHOOSE x \in S : \A y \in S : y <= x
+KeysAgree(e) == /\ {e.keys[i] : i \in 1..Len(e.keys)} = {k \in K : e.vals[k] # Nil}
+                /\ Len(e.keys) = Cardinality({k \in K : e.vals[k] # Nil})
+
+\* the engine is abandoned here (every goroutine parked or blocked); the image the run continues on keeps
+\* every written byte (process death) or, per file named in cuts, its first n bytes (power failure)
+TFault ==
+  /\ Is("fault") /\ ~flt.on /\ l' = l + 1
+  /\ LET e == E
+         C == {e.cuts[i] : i \in 1..Len(e.cuts)}
+         keep(f) == IF \E c \in C : c.f = f THEN MinI(written[f], (CHOOSE c \in C : c.f = f).n) ELSE written[f]
+         torn == \E c \in C : c.f \in DOMAIN written /\ c.n < written[c.f] /\ c.n \notin Get(wends, c.f, {0})
+         commitInFlight == pend # None /\ pend.op = "Commit" /\ ~batch.done
+     IN /\ flt' = [on |-> TRUE, proc |-> e.proc, lo |-> Floor(e.proc), infw |-> PendW, torn |-> torn,
+                   infends |-> (IF pend = None THEN {} ELSE pend.ends) \cup (IF commitInFlight THEN batch.ends ELSE {})]
+        \* (the driver never cuts below the flushed size it has observed through the same io events)
+        /\ written' = [f \in DOMAIN written |-> keep(f)]
+        /\ synced' = [f \in DOMAIN synced |-> MinI(synced[f], keep(f))]
+        /\ wends' = [f \in DOMAIN wends |-> {x \in wends[f] : x <= keep(f)} \cup {keep(f)}]
+  /\ pend' = None /\ batch' = NoBatch /\ plain' = {} /\ st' = "closed"
+  /\ UNCHANGED <<n, cfg, maps, ends>>
+
+\* the Open of the image returned (its call/ret/io events lie between the fault and this event)
+TRecovered ==
+  /\ Is("recovered") /\ flt.on /\ pend = None /\ l' = l + 1
+  /\ LET e == E
+         view == AsMap(e.vals)
+         inflight == ApplyWs(Cur, flt.infw)
+         Q == {q \in flt.lo..P : maps[q + 1] = view}
+         ok == e.open = "ok" /\ e.geterr = "ok" /\ KeysAgree(e) /\ (Q # {} \/ view = inflight)
+     IN IF ok /\ Q # {} THEN
+             \* several prefixes may give the same mapping: the longest is taken (its records may all still be there)
+             LET q == MaxS(Q) IN maps' = SubSeq(maps, 1, q + 1) /\ ends' = SubSeq(ends, 1, q)
+        ELSE IF ok THEN maps' = Append(maps, view) /\ ends' = Append(ends, flt.infends)
+        ELSE IF ~Chk("recok") THEN maps' = << view >> /\ ends' = <<>>
+        ELSE IF "F24" \in Known /\ flt.torn /\ ~flt.proc /\ cfg.io = "std" /\ e.open \notin {"ok", "panic", "stuck"}
+             THEN Use("F24") /\ UNCHANGED <<maps, ends>>
+        ELSE Fail("recok") /\ UNCHANGED <<maps, ends>>
+  /\ flt' = NoFlt
+  /\ UNCHANGED <<n, cfg, written, synced, wends, pend, batch, plain, st>>
+
+\* a quiescent instant of the live database (no call in flight, no batch open): it shows the acknowledged mapping
+TView ==
+  /\ Is("view") /\ l' = l + 1
+  /\ Must("view", (pend = None /\ ~batch.open /\ ~flt.on) => (E.geterr = "ok" /\ AsMap(E.vals) = Cur /\ KeysAgree(E)))
+  /\ UNCHANGED <<n, cfg, written, synced, wends, pend, batch, maps, ends, plain, st, flt>>
+
+Next == TReset \/ TIo \/ TCall \/ TRet \/ TCrashRec \/ TSkip \/ TFault \/ TRecovered \/ TView
 Spec == Init /\ [][Next]_vars
 
 ASSUME TLCSet(1, 0)
